@@ -293,6 +293,40 @@ def run(ctx) -> None:
         ctx.count("c01.history_replays")
         if o.kind != "return" or o.flags.tolist() != flags:
             ctx.violation(f"C01:history-dependent:{M[mname][0]}", {"kind": "call", **case, "first": flags, "later": o.brief()})
+    # a parameter OBJECT with a life of its own: a ClimatologyConfig used, extended with add(), and used again gives what an
+    # equal config built in one go gives (the flags are a function of the arguments as they are at the time of the call)
+    import ioos_qc.qartod as q  # noqa: PLC0415
+
+    for _ in range(ctx.pick(40, 200)):
+        n = rng.choice([3, 4, 6, 12])
+        months = sorted(rng.sample(range(1, 13), n))
+        t_ = np.array([f"2021-{m_:02d}-{rng.randrange(1, 28):02d}" for m_ in months], dtype="datetime64[ns]")
+        x_ = np.array([rng.choice([5.0, 50.0, -3.0, 9.5]) for _ in range(n)])
+        z_ = np.array([rng.choice([np.nan, 1.0, 20.0]) for _ in range(n)])
+        cut = rng.randrange(2, 12)
+        mem = [dict(tspan=(1, cut), vspan=(0, 10), period="month"),
+               dict(tspan=(cut + 1, 12), vspan=(0, 10), fspan=(-5, 40), period="month"),
+               dict(tspan=(rng.randrange(1, 7), 12), vspan=(4, 6), period="month", zspan=(0, 10))][: rng.choice([2, 3])]
+        used, fresh = q.ClimatologyConfig(), q.ClimatologyConfig()
+        k_ = rng.randrange(0, len(mem))
+        for m_ in mem[:k_]:
+            used.add(**m_)
+        client.invoke("qartod.climatology_test", {"config": used, "inp": x_, "tinp": t_, "zinp": z_}, check_purity=False)
+        for m_ in mem[k_:]:
+            used.add(**m_)
+        for m_ in mem:
+            fresh.add(**m_)
+        o_u = client.invoke("qartod.climatology_test", {"config": used, "inp": x_, "tinp": t_, "zinp": z_}, check_purity=False)
+        o_f = client.invoke("qartod.climatology_test", {"config": fresh, "inp": x_, "tinp": t_, "zinp": z_}, check_purity=False)
+        ctx.count("c01.calls", 3)
+        ctx.count("c01.config_object_use_add_use_histories")
+        a_ = None if o_u.kind != "return" else o_u.flags.tolist()
+        b_ = None if o_f.kind != "return" else o_f.flags.tolist()
+        ctx.case(f"climatology-object|use-add-use|k{k_}of{len(mem)}|n{n}")
+        if a_ != b_:
+            ctx.violation("C01:history-dependent:qartod.climatology_test:config-object-extended-after-use",
+                          {"kind": "history", "members": core.jsonable(mem), "members_present_at_first_use": k_, "t": [str(v) for v in t_],
+                           "x": x_.tolist(), "z": core.jsonable(z_), "used_then_extended": o_u.brief(), "built_in_one_go": o_f.brief()})
     ctx.counters["c01.contract_result_evaluations"] += sum(v for k, v in mon.evals.items() if k.endswith(":result"))
     ctx.counters["c01.contract_argument_evaluations"] += sum(v for k, v in mon.evals.items() if k.endswith("-unmodified"))
     for k, v in mon.evals.items():
